@@ -123,6 +123,43 @@ def posAtIndex (r : RPos) (index d : Nat) : Nat :=
 
 end RPos
 
+namespace RPos
+
+/-- the `while d >= 0` loop of `block_range`, started at depth `d`: the largest `d' ≤ d` with
+    `other ≤ self.end(d')` (and `pred(self.node(d'))`); `none` = the loop runs out (Python returns None) -/
+def blockDepth (r : RPos) (other : Nat) (pred : Node → Bool) : Nat → Option Nat
+  | 0 => if other ≤ r.end_ 0 && pred (r.node 0) then some 0 else none
+  | d + 1 => if other ≤ r.end_ (d + 1) && pred (r.node (d + 1)) then some (d + 1)
+             else blockDepth r other pred d
+
+/-- `self.block_range(other, pred)` followed by reading `depth`, `start`, `end` of the `NodeRange`
+    (`start = from.before(depth + 1)`, `end = to.after(depth + 1)`).
+    `pred = none` is Python's `pred=None`; the swapped call `other.block_range(self)` drops `pred`.
+    `.ok none` = Python returns `None`; `.error .internal` = `before`/`after` would index past the path. -/
+def blockRange (S : Schema) (r o : RPos) (pred : Option (Node → Bool)) : Res (Option (Nat × Nat × Nat)) :=
+  let a := if o.pos < r.pos then o else r
+  let b := if o.pos < r.pos then r else o
+  let pr : Node → Bool := if o.pos < r.pos then (fun _ => true) else pred.getD (fun _ => true)
+  -- `d = self.depth - (self.parent.inline_content or (1 if self.pos == other.pos else 0))`
+  let shrink := (S.nodeType (S.tyOf a.parent)).inlineContent || a.pos == b.pos
+  if shrink && a.depth == 0 then .ok none       -- d = -1: the loop body never runs
+  else
+    match a.blockDepth b.pos pr (a.depth - (if shrink then 1 else 0)) with
+    | none => .ok none
+    | some d =>
+      match a.before (d + 1), b.after (d + 1) with
+      | some s, some e => .ok (some (d, s, e))
+      | _, _ => .error .internal
+
+end RPos
+
+/-- `doc.resolve(f).block_range(doc.resolve(t))` as `(depth, start, end)`;
+    `.error .valueError` = a position does not resolve, `.ok none` = Python returns `None` -/
+def blockRange (S : Schema) (doc : Node) (f t : Nat) : Res (Option (Nat × Nat × Nat)) :=
+  match doc.resolve f, doc.resolve t with
+  | some r, some o => r.blockRange S o none
+  | _, _ => .error .valueError
+
 /-! ### node_at, child_after, child_before -/
 
 /-- `Node.node_at(pos)` below a child list; `.error` = ValueError (out of range) -/
@@ -193,6 +230,47 @@ def textBetween : List Node → Nat → Nat → List Nat
           | .leaf .. => []
         else []
       here ++ textBetween ns (from_ - sz) (to - sz)
+
+/-! ### text_between with block separator and leaf text -/
+
+/-- the callback of `Fragment.text_between` on one visited node; the state is
+    `(text so far, separated)`; `from_`/`to` are the arguments of the outer call and `pos` the
+    absolute position reported by `nodes_between` -/
+def tbStep (S : Schema) (from_ to : Nat) (sep : List Nat) (leafText : Node → List Nat) :
+    List Nat × Bool → Node × Nat × Nat → List Nat × Bool
+  | (txt, separated), (n, pos, _) =>
+    match n with
+    | .text s _ => (txt ++ (s.take (to - pos)).drop (max from_ pos - pos), sep.isEmpty)
+    | .leaf .. => (txt ++ leafText n, sep.isEmpty)
+    | .elem ty _ _ _ =>
+      if !separated && !(S.nodeType ty).isInline then (txt ++ sep, true) else (txt, separated)
+
+/-- `Fragment.text_between(from, to, block_separator, leaf_text)` on UTF-16 units: the callback
+    run over the nodes `nodes_between(from, to)` visits, in order.  `leafText n = []` stands for
+    "no leaf text" (`spec.leafText` is not modelled).  Like `textBetween`, this is the unit-level
+    result; the failure modes of the code are in `textBetweenSepRes`. -/
+def textBetweenSep (S : Schema) (kids : List Node) (from_ to : Nat) (sep : List Nat)
+    (leafText : Node → List Nat) : List Nat :=
+  ((nodesBetween kids from_ to 0 0).foldl (tbStep S from_ to sep leafText) ([], true)).1
+
+/-- `bytes.decode("utf-16-le")` succeeds: every high surrogate is followed by a low one and no
+    low surrogate stands alone -/
+def utf16Ok : List Nat → Bool
+  | [] => true
+  | [a] => !isHigh a && !isLow a
+  | a :: b :: r => if isHigh a then isLow b && utf16Ok r else !isLow a && utf16Ok (b :: r)
+
+/-- `text_between` with the failures of the code: a visited text node whose slice is cut inside a
+    surrogate pair raises `UnicodeDecodeError` (`.valueError`); `to` past the end of the content
+    ends in `IndexError` (`.internal`) after all nodes were visited -/
+def textBetweenSepRes (S : Schema) (kids : List Node) (from_ to : Nat) (sep : List Nat)
+    (leafText : Node → List Nat) : Res (List Nat) :=
+  if (nodesBetween kids from_ to 0 0).any (fun x =>
+      match x.1 with
+      | .text s _ => !utf16Ok ((s.take (to - x.2.1)).drop (max from_ x.2.1 - x.2.1))
+      | _ => false) then .error .valueError
+  else if fsize kids < to then .error .internal
+  else .ok (textBetweenSep S kids from_ to sep leafText)
 
 /-- `range_has_mark(from, to, mark)`: some visited node carries the mark -/
 def rangeHasMark (kids : List Node) (from_ to : Nat) (m : Mark) : Bool :=
